@@ -120,6 +120,11 @@ func init() {
 	register("c05", func(a []Tok) []Tok {
 		carrier, scert := a[0].W, a[1].W
 		insecure, ccert, require, must := a[2].I == 1, a[3].W, a[4].I == 1, a[5].I == 1
+		if len(a) > 6 && a[6].W == "files" {
+			// certificate, key and CA reach the configuration as file names
+			cfgFromFiles = true
+			defer func() { cfgFromFiles = false; removeCfgFiles() }()
+		}
 		hits := 0
 		chans := server.Channels{&echoChannel{hits: &hits}}
 		url, stop, err := startServer(carrier, serverCfg(scert, require), chans)
